@@ -299,6 +299,8 @@ pub fn run(routine: &str, t: &mut Toks) -> String {
     match et {
         "f64" => run_float::<f64>(routine, t),
         "f32" => run_float::<f32>(routine, t),
+        // noisy_float's checked double: every operation panics on a NaN result (debug profile)
+        "n64" => run_float::<noisy_float::types::N64>(routine, t),
         "i32" => run_int::<i32>(routine, t),
         "i64" => run_int::<i64>(routine, t),
         "u64" => run_int::<u64>(routine, t),
